@@ -121,22 +121,25 @@ Integrity(m) == m \in {"KW", "KWP", "OAEP"}
 \* the unwrapping key fits: the same AES key value, or the RSA key (there is one pair)
 Fits(m, w, b) == m = blob[b].m /\ (IF Randomised(m) THEN key[w].kind = "rsa" ELSE IsAes(key[w].kind) /\ key[w].v = blob[b].wv)
 UnwrappedKind(m, kk) == IF m = "KW" /\ LenOf(kk) % 8 # 0 THEN "gen24" ELSE kk
-\* e: what the caller's template says about CKA_ENCRYPT ("T", "F", or "absent": silent)
+\* e: what the caller's template says about CKA_ENCRYPT: "T", "F", "absent" (silent), or the attribute TWICE with
+\* different values, "TF" / "FT" (then the last entry is the one that counts for the key)
+Last(e) == CASE e = "TF" -> "F" [] e = "FT" -> "T" [] OTHER -> e
 UnwrapE(m, w, b, e) ==
     \* (the library offers CKM_AES_CBC for wrapping only; what it wrapped is judged by the reference)
     /\ m \in WrapMechs \ {"CBC"} /\ Live(w) /\ BLive(b) /\ UNCHANGED <<blob, nb>>
     /\ (~Sym(blob[b].kk) => e = "absent")
     /\ LET kk == UnwrappedKind(m, blob[b].kk)
            ut == key[w].ut
-           enc == IF e = "absent" THEN (TEnc(ut) # "F") ELSE e = "T"       \* (CKA_ENCRYPT defaults to true)
+           le == Last(e)
+           enc == IF le = "absent" THEN (TEnc(ut) # "F") ELSE le = "T"       \* (CKA_ENCRYPT defaults to true)
            term == IF kk = blob[b].kk THEN tbl[blob[b].kv] ELSE Term("pad8", kk, blob[b].kv, "", 0) IN
        IF ~WrapKeyOK(m, key[w].kind) THEN Fail("ERR")
-       \* the caller's template contradicts the unwrap template of w
-       ELSE IF TKt(ut) \notin {"any", KtOf(kk)} \/ (e # "absent" /\ TEnc(ut) \notin {"any", e}) THEN Fail("ERR")
+       \* the caller's template contradicts the unwrap template of w (with a repeated entry: the value that would count)
+       ELSE IF TKt(ut) \notin {"any", KtOf(kk)} \/ (le # "absent" /\ TEnc(ut) \notin {"any", le}) THEN Fail("ERR")
        \* an RSA private key has no CKA_ENCRYPT: an unwrap template that demands one cannot be satisfied
        ELSE IF ~Sym(kk) /\ TEnc(ut) # "any" THEN Fail("ERR")
-       \* ... is silent about an entry: refused (as built), or the entry is applied (PKCS#11)
-       ELSE IF e = "absent" /\ TEnc(ut) # "any"
+       \* ... is silent about an entry, or names it twice: refused (as built), or the entry is applied / the last one counts
+       ELSE IF (e = "absent" \/ e \in {"TF", "FT"}) /\ TEnc(ut) # "any"
        THEN \/ Fail("ERR")
             \/ Fits(m, w, b) /\ ~blob[b].bad /\ NewKeyA(kk, term, enc, "none", "none", w)
        ELSE IF Fits(m, w, b) /\ ~blob[b].bad
@@ -147,7 +150,7 @@ UnwrapE(m, w, b, e) ==
        ELSE \/ Fail("ERR")
             \/ nk < MaxK /\ NewKeyA(blob[b].kk, Term("junk", blob[b].kk, nk + 1, m, b), enc, "none", "none", w)
 MUnwrap(m, w, b) == "unwrap" \in Acts /\ UnwrapE(m, w, b, IF Sym(blob[b].kk) THEN "T" ELSE "absent")
-MUnwrapT(m, w, b, e) == "unwrapt" \in Acts /\ e \in {"T", "F", "absent"} /\ UnwrapE(m, w, b, e)
+MUnwrapT(m, w, b, e) == "unwrapt" \in Acts /\ e \in {"T", "F", "absent", "TF", "FT"} /\ UnwrapE(m, w, b, e)
 
 \* a blob is unwrapped with a template of the other object class (a secret as an RSA private key, a private key as a
 \* secret): the key material cannot be installed; the call fails and nothing may be left behind
@@ -230,7 +233,7 @@ Next == \/ \E kind \in AllKinds, i \in 1 .. 2 : MImport(kind, i)
         \/ \E m \in AllWrap, w \in KS, k \in KS, iv \in 0 .. 2 : MWrap(m, w, k, iv)
         \/ \E b \in BS, how \in {"flip", "cut"} : MDamage(b, how)
         \/ \E m \in AllWrap, w \in KS, b \in BS : MUnwrap(m, w, b)
-        \/ \E m \in AllWrap, w \in KS, b \in BS, e \in {"T", "F", "absent"} : MUnwrapT(m, w, b, e)
+        \/ \E m \in AllWrap, w \in KS, b \in BS, e \in {"T", "F", "absent", "TF", "FT"} : MUnwrapT(m, w, b, e)
         \/ \E m \in AllWrap, w \in KS, b \in BS : MUnwrapAs(m, w, b)
         \/ \E m \in AllDer, base \in KS, d \in 1 .. 3, kind \in AllKinds : MDerive(m, base, d, kind)
         \/ \E k \in KS : MValue(k)
